@@ -298,7 +298,22 @@ def parse_module(text):
     mod = Module()
     cur = None
     cur_label = None
+    # a switch with more than a couple of cases is printed over several lines: join "switch ... [" with its case lines up to "]"
+    joined = []
+    pending = None
     for raw in text.splitlines():
+        if pending is not None:
+            pending += " " + raw.strip()
+            if raw.strip().startswith("]"):
+                joined.append(pending)
+                pending = None
+            continue
+        st = raw.strip()
+        if st.startswith("switch ") and st.endswith("[") :
+            pending = raw.rstrip()
+            continue
+        joined.append(raw)
+    for raw in joined:
         line = raw.rstrip()
         if not line or line.startswith(";") or line.startswith("!") or line.startswith("source_filename") \
                 or line.startswith("target ") or line.startswith("attributes ") or line.startswith("$"):
